@@ -139,6 +139,11 @@ def scenarios(seed, tier):
     out = []
     for k, h in enumerate(HANDCRAFTED):
         out.append(dict(h, id=100 + k, seed=1000 * seed + 7 + k))
+    # evaluation budgets that end inside a leaf deme's metaepoch (the last generation before the stop must be kept: C04, C05)
+    for k in range(8 if tier == "quick" else 30):
+        out.append(dict(kinds=[rng.choice(["sea", "de"]), rng.choice(["de", "shade", "sea"])], objective="funnels", box="sym2", maximize=rng.random() < 0.3,
+                        generations=2, leaf_generations=3, sprout="nbc", level_limit=3, gsc="evals", gsc_n=rng.choice([2, 3, 4, 5]),
+                        evals_extra=rng.randrange(0, 60), lsc="dontstop", hibernation=False, wrap="none", id=200 + k, seed=rng.randrange(10 ** 6)))
     n = 16 if tier == "quick" else 60
     for i in range(n):
         nlev = rng.choice([1, 2, 2, 2, 3, 3])
@@ -196,7 +201,7 @@ def build(sc, seed_override=None):
     else:
         sprout = get_NBC_sprout(level_limit=sc["level_limit"], gen_dist_factor=1.5, fil_dist_factor=1.0, trunc_factor=0.8)
     n = sc["gsc_n"]
-    gsc = {"metaepoch": lambda: MetaepochLimit(n), "evals": lambda: SingularProblemEvalLimitReached(60 * n),
+    gsc = {"metaepoch": lambda: MetaepochLimit(n), "evals": lambda: SingularProblemEvalLimitReached(60 * n + sc.get("evals_extra", 0)),
            "evals_w": lambda: FitnessEvalLimitReached(60 * n, weights=[1.0] * len(levels)),
            "allstopped": lambda: AllStopped(), "rootstopped": lambda: RootStopped(), "nonroot": lambda: NoActiveNonrootDemes(2)}[sc["gsc"]]()
     if sc["gsc"] in ("allstopped", "rootstopped", "nonroot"):
